@@ -13,7 +13,11 @@ Streams: `gen` (random programs; every second one with identifiers of all charac
 user types), `anon` (interfaces whose methods take inline function types over user types with such identifiers: the class name of an
 anonymous function is computed from the spelling of its signature by the Java and by the JNI generator), `hist` (ONE `API` object,
 2-3 successive configure → parse → generate rounds with other packages / support-types packages / identifier styles and programs
-with `async` methods; each round's glue is checked against that round's javap output), corpus.
+with `async` methods; each round's glue is checked against that round's javap output), `tgt` (records, interfaces and named function
+types whose target lists walk the whole lattice of lists over the supported keys cpp / cppcli / java / objc / yaml — lists with
+neither cpp nor java, one of them, both — in every spelling (`+a +b`, `-c -d`, `+any -c`, `+a +c -c`, repetitions), referred to from
+each other's fields, parameters, results and inline function types: which Java class, proxy class and natives exist and which
+lookups / exports the glue has are both functions of the list), corpus.
 Specification on the implementation's observations (`c07.spec`): every looked-up (class, member, descriptor)
 exists in the Java classes (superclasses searched, static-ness respected); every `native` method has exactly one
 export with the mangled name and the C types of its Java signature; no orphan `Java_…` export.
